@@ -5,7 +5,7 @@ from .. import app, docprops, engine
 from ..oracles.positions import _width
 from ..runner import Run, h64
 
-PLAN = {"B2/53": 1500, "B3/89": 900, "B4/83": 700, "I4/97": 900, "N1/11": 1500, "W1/2": 1200, "S2": 1200, "S3": 300, "U1/7": 400, "X2/3": 500, "H4/3": 400}
+PLAN = {"B2/53": 1500, "B3/89": 900, "B4/83": 700, "I4/97": 900, "N1/11": 1500, "W1/2": 1200, "S2": 1200, "S3": 300, "U1/7": 400, "X2/3": 500, "H4/3": 400, "P2": 500}
 FIRST = {"B2/53": 60}
 EVALUATOR = "vp.props.c07:ev"
 RULE = (
